@@ -34,7 +34,7 @@
 
 use self::errors::*;
 use crate::temporal::ym_duration::FeelYearsAndMonthsDuration;
-use crate::temporal::{after, after_or_equal, before, before_or_equal, between, equal, weekday, FeelDateTime, FeelTime};
+use crate::temporal::{weekday, FeelDateTime, FeelTime};
 use crate::FeelNumber;
 use chrono::{DateTime, Datelike, FixedOffset, Local};
 use dmntk_common::DmntkError;
@@ -120,22 +120,10 @@ impl PartialEq for FeelDate {
 }
 
 impl PartialOrd for FeelDate {
-  ///
+  /// Dates are ordered by year, month and day; every two dates are comparable,
+  /// also those beyond the range of the calendar library.
   fn partial_cmp(&self, other: &Self) -> Option<Ordering> {
-    if self == other {
-      return Some(Ordering::Equal);
-    }
-    if let Some(before) = self.before(other) {
-      if before {
-        return Some(Ordering::Less);
-      }
-    }
-    if let Some(after) = self.after(other) {
-      if after {
-        return Some(Ordering::Greater);
-      }
-    }
-    None
+    Some((self.0, self.1, self.2).cmp(&(other.0, other.1, other.2)))
   }
 }
 
@@ -168,39 +156,29 @@ impl FeelDate {
   }
   ///
   pub fn equal(&self, other: &Self) -> Option<bool> {
-    let midnight = FeelTime::utc(0, 0, 0, 0);
-    equal(&FeelDateTime(self.clone(), midnight.clone()), &FeelDateTime(other.clone(), midnight))
+    Some(self == other)
   }
   ///
   pub fn before(&self, other: &Self) -> Option<bool> {
-    let midnight = FeelTime::utc(0, 0, 0, 0);
-    before(&FeelDateTime(self.clone(), midnight.clone()), &FeelDateTime(other.clone(), midnight))
+    Some(self < other)
   }
   ///
   pub fn before_or_equal(&self, other: &Self) -> Option<bool> {
-    let midnight = FeelTime::utc(0, 0, 0, 0);
-    before_or_equal(&FeelDateTime(self.clone(), midnight.clone()), &FeelDateTime(other.clone(), midnight))
+    Some(self <= other)
   }
   ///
   pub fn after(&self, other: &Self) -> Option<bool> {
-    let midnight = FeelTime::utc(0, 0, 0, 0);
-    after(&FeelDateTime(self.clone(), midnight.clone()), &FeelDateTime(other.clone(), midnight))
+    Some(self > other)
   }
   ///
   pub fn after_or_equal(&self, other: &Self) -> Option<bool> {
-    let midnight = FeelTime::utc(0, 0, 0, 0);
-    after_or_equal(&FeelDateTime(self.clone(), midnight.clone()), &FeelDateTime(other.clone(), midnight))
+    Some(self >= other)
   }
   ///
   pub fn between(&self, left: &Self, right: &Self, left_closed: bool, right_closed: bool) -> Option<bool> {
-    let midnight = FeelTime::utc(0, 0, 0, 0);
-    between(
-      &FeelDateTime(self.clone(), midnight.clone()),
-      &FeelDateTime(left.clone(), midnight.clone()),
-      &FeelDateTime(right.clone(), midnight),
-      left_closed,
-      right_closed,
-    )
+    let after_left = if left_closed { left <= self } else { left < self };
+    let before_right = if right_closed { self <= right } else { self < right };
+    Some(after_left && before_right)
   }
   ///
   pub fn ym_duration(&self, other: &FeelDate) -> FeelYearsAndMonthsDuration {
